@@ -10,14 +10,6 @@ set_option linter.unusedSectionVars false
 
 variable {β : Type}
 
-theorem any_congr_mem {γ : Type} (f g : γ → Bool) (l : List γ) (hfg : ∀ a ∈ l, f a = g a) :
-    l.any f = l.any g := by
-  induction l with
-  | nil => rfl
-  | cons a as ih =>
-    simp only [List.any_cons]
-    rw [hfg a (List.mem_cons_self ..), ih (fun x hx => hfg x (List.mem_cons_of_mem _ hx))]
-
 /-! ### sorting -/
 
 theorem insertBy_perm {γ : Type} (c : Cmp β) (key : γ → β) (x : γ) (l : List γ) :
